@@ -50,10 +50,10 @@ type counterparty struct {
 	tmSkipped []int64
 	tmAnchor  map[int64]int64
 	tmMode    int // next header: 0 next block, 1 skip one block first, 2 fill in a skipped block
-	tm   *tmStub
-	bsc  *bscWorld
-	eth  *ethWorld
-	tss  *node.Account
+	tm        *tmStub
+	bsc       *bscWorld
+	eth       *ethWorld
+	tss       *node.Account
 }
 
 type lcClient struct {
@@ -358,6 +358,9 @@ func (w *lcWorld) apply(op kernel.Op) {
 	case "export":
 		if w.host.InBlock || w.host.Halted != "" {
 			return
+		}
+		if (int64(w.host.Height)+op.Arg(0))%3 == 1 {
+			genfault.Restart(w.rec, w.host, "lifecycle")
 		}
 		genfault.Run(w.rec, w.host, int64(w.host.Height)+op.Arg(0))
 		for _, is := range w.host.ModuleRoundTrip() {
